@@ -205,8 +205,40 @@ type SNode struct {
 	Module string    `json:"module"`
 	When   string    `json:"when"`
 	WhenP  Cond      `json:"whenp"` // the when expression taken apart (on = false: none)
+	T      TypeDesc  `json:"t"`     // restrictions per typedef level, as written (RFC 7950 derivation)
 	Enums  []EnumDef `json:"enums"` // enumeration: labels with assigned values; bits: labels with positions
 	Bases  []string  `json:"ids"`   // identityref: every identity the leaf accepts
+}
+
+// Bound pair of a range / length alternative: numerals, or "min" / "max".
+type Alt struct {
+	Lo string `json:"lo"`
+	Hi string `json:"hi"`
+}
+
+type Pat struct {
+	Re  string `json:"re"`
+	Inv bool   `json:"inv"`
+}
+
+// Level: the restrictions one level of a typedef chain states.
+type Level struct {
+	Ranges []Alt `json:"ranges"`
+	Lens   []Alt `json:"lens"`
+	Pats   []Pat `json:"pats"`
+}
+
+// TypeDesc describes a leaf's type as written: base, restriction levels innermost first,
+// and for unions the member descriptors (one nesting level).
+type TypeDesc struct {
+	Base    string     `json:"base"`
+	Levels  []Level    `json:"levels"`
+	Members []TypeMem  `json:"members"`
+}
+
+type TypeMem struct {
+	Base   string  `json:"base"`
+	Levels []Level `json:"levels"`
 }
 
 // Cond is a comparison of the XPath subset: path <op> literal.
